@@ -263,6 +263,8 @@ def run(case):
             if type(e) is Exception and k == 'bool':
                 m = str(e)
                 return [['NumericException', 1 if 'can not be empty' in m else 2 if 'can not be parsed' in m else 0], None]
+            if isinstance(e, UnicodeDecodeError) and k == 'date':
+                raise ValueError(str(e))        # value.decode(): a ValueError subclass; the model has one code for both
             raise
         return [_read(case, df), None]
     finally:
@@ -498,7 +500,9 @@ TABLES_EXTRA = [
 ]
 BOOL_WORDS = ['1', '0', 'y', 'n', 't', 'f', 'on', 'no', 'yes', 'off', 'true', 'false']
 BOOL_BAD = ['', ' ', '   ', '2', 'x', 'ye', 'yess', 'tru', 'truee', 'fals', 'falsee', 'of', 'o', 'oon', 'nn', 'y s', 'tr ue',
-            'yes!', 'Y.', '10', '00', 'nope', 'offf', 'TRUEE', '\t1', '1\t']
+            'yes!', 'Y.', '10', '00', 'nope', 'offf', 'TRUEE', '\t1', '1\t',
+            # E2 (bool_transform_table): only byte 32 is trimmed; six bytes and more; blanks inside
+            '\n', ' \t ', 'yes\n', 'false ', '  FaLsE', 'falsey', ' o n ', 'o  ff', '1 1', 'true  x']
 INT_POOL = ['0', '1', '-1', '+5', ' 12', '12 ', '  7  ', '\t8', '0012', '-0', '1_000', '1__0', '_1', '1_', '1e3', '1.5', '1.0',
             '0x10', 'abc', '12abc', '- 5', '--5', '+-5', '1 2', '', ' ', '   ', '127', '128', '-128', '-129', '255', '256',
             '300', '32767', '32768', '-32768', '-32769', '65535', '65536', '2147483647', '2147483648', '-2147483648',
@@ -560,7 +564,10 @@ DATE_POOL = ['2020-06-15', '1970-01-01', '1969-12-31', '2000-02-29', '2100-02-28
              '2020-01-5', '2020-1-05', '2020-12-31', '2020-10-10', '2020-11-30', '2020-01- 5', '', ' ', ' 2020-06-15 ',
              '2020-13-01', '2021-02-29', '2100-02-29', '2020-00-10', '2020-06-00', '2020-06-31', '2020-06-32', '2020-06-150',
              '20-06-15', '02020-06-15', '2020/06/15', '2020-06-15 00:00:00', 'garbage', '2020-06', '2020-0a-01',
-             '0000-01-01', '2020-06-1x', '2020--06-15', '2020-06-15-', '2020- 6-15', '2020-06-3']
+             '0000-01-01', '2020-06-1x', '2020--06-15', '2020-06-15-', '2020- 6-15', '2020-06-3',
+             # E2 (date_cell_table / date_invalid_raises): every strip() byte, the three day spellings, stray separators
+             '\t2020-06-15\n', '2020-06-15\x0b\x0c\r', '\t \n', '2020-1--5', '2020-1-5-', '2020-1- 5', '2020-12- 1', '2020-10-5',
+             '2020-02-30', '2020-06- 15', '2020-06-015', '2020-6- 0', '2020-06-30 x', '-2020-06-15', '2020-06-15 \t 1']
 
 
 def gen(tier, rng):
